@@ -542,9 +542,6 @@ func runTask(r *ev.Run, t task) {
 			if _, ok := seen[h]; !ok {
 				seen[h] = struct{}{}
 				r.Nontrivial.Add(1)
-				if n == 2 && len(seen) == 7 && r.SampleN() < 6 && t.idx[0] == 1 {
-					r.Sample(map[string]any{"format": f.id, "file": g.file, "expected": pairs(g.truth), "layout": layoutFull(f, lay)})
-				}
 			}
 		}
 		if symptom != "" {
@@ -648,6 +645,21 @@ func main() {
 			level = append(level[k:], level[:k]...)
 		}
 		tasks = append(tasks, level...)
+	}
+	// written-out samples: records (pool[1], pool[0]) under the layout with every dimension at value 1
+	for i, f := range formats {
+		if i%3 != 0 || r.SampleN() >= 6 {
+			continue
+		}
+		recs := []rec{f.pool[1], f.pool[0]}
+		lay := make([]int, len(f.dims))
+		for d := range lay {
+			if f.dims[d].size(2) > 1 {
+				lay[d] = 1
+			}
+		}
+		g := f.gen(recs, lay)
+		r.Sample(map[string]any{"format": f.id, "path": f.path, "file": g.file, "expected": pairs(g.truth), "layout": layoutFull(f, lay)})
 	}
 	done := r.ParallelFor(len(tasks), func(i int) { runTask(r, tasks[i]) })
 	r.Set("max_records", maxN)
